@@ -50,7 +50,7 @@ static json_t *
 op_sig(json_t *args)
 {
     json_t *jws = json_deep_copy(hx_arg(args, "jws"));
-    json_t *sig = json_deep_copy(hx_arg(args, "sig"));
+    json_t *sig = hx_tmpl(args, "sig");
     bool ok = jose_jws_sig(NULL, jws, sig, hx_arg(args, "jwk"));
     json_t *res = json_pack("{s:b}", "ok", ok);
     if (ok && jws)
@@ -65,7 +65,7 @@ static json_t *
 op_sig_io(json_t *args)
 {
     json_t *jws = json_deep_copy(hx_arg(args, "jws"));
-    json_t *sig = json_deep_copy(hx_arg(args, "sig"));
+    json_t *sig = hx_tmpl(args, "sig");
     jose_io_t *io = jose_jws_sig_io(NULL, jws, sig, hx_arg(args, "jwk"));
     json_t *feeds = hx_arg(args, "feeds");
     json_t *res = json_object();
